@@ -1,6 +1,7 @@
 import PqModel.AsyncTrace
 import PqModel.AsyncFair
 import PqModel.PoolProto
+import PqModel.Registry
 import PqModel.CasPublish
 import PqModel.Commit
 
@@ -306,6 +307,47 @@ example : disc encodeSlip = false ∧ ∀ n, disc (reconstructSlip n) = false :=
   simp [reconstructSlip, disc, disc_replicate_append]
 
 end pool
+
+/-! ## process-wide registries -/
+section registry
+open PqModel.Registry
+
+/-- `getBufioReaderPool` as it is (every goroutine takes the lock first: `fast = false`), any number
+    of goroutines and keys, every interleaving: no map write ever overlaps another map access
+    (no `concurrent map read and map write`), and the registry is linearizable as a
+    lookup-or-insert: a returned value is the table's value for the key, a key's value never changes
+    once set, so all goroutines asking for one key get one pool. -/
+theorem registry_linearizable (keys : List (Nat × Bool)) (hk : ∀ kf ∈ keys, kf.2 = false) {s : St}
+    (hr : Reach keys s) :
+    ¬ Conflict s ∧
+    (∀ (i : Nat) k r, s.gs[i]? = some ⟨k, .done r⟩ → s.table k = some r) ∧
+    (∀ (i j : Nat) k r r', s.gs[i]? = some ⟨k, .done r⟩ → s.gs[j]? = some ⟨k, .done r'⟩ → r = r') ∧
+    (∀ s' k v, Step s s' → s.table k = some v → s'.table k = some v) := by
+  have hi := rinv_reach hk hr
+  refine ⟨rinv_no_conflict hi, fun i k r h => hi.res i k r (Or.inr h), ?_, fun s' k v h => table_stable hi h⟩
+  intro i j k r r' h1 h2
+  have a := hi.res i k r (Or.inr h1)
+  have b := hi.res j k r' (Or.inr h2)
+  rw [a] at b; exact Option.some.inj b
+
+/-- hypotheses satisfiable: three goroutines, two of them asking for the same size -/
+example : ∀ kf ∈ [(4096, false), (512, false), (4096, false)], kf.2 = false := by decide
+
+/-- NEGATION for the unlocked fast path (broken double-checked locking): goroutine 0 (size 1) takes
+    the lock, misses and is inside the map write; goroutine 1 (a never-seen size 2) begins its
+    unlocked read: a map read concurrent with a map write. -/
+theorem registry_fast_path_conflict : ∃ s, Reach [(1, true), (2, true)] s ∧ Conflict s := by
+  have s0 : Reach [(1, true), (2, true)] (Registry.init [(1, true), (2, true)]) := .init
+  have s1 := s0.step (.startFast (i := 0) rfl)
+  have s2 := s1.step (.fastMiss (i := 0) rfl rfl)
+  have s3 := s2.step (.lock (i := 0) rfl rfl)
+  have s4 := s3.step (.beginRead (i := 0) rfl)
+  have s5 := s4.step (.readMiss (i := 0) rfl rfl)
+  have s6 := s5.step (.beginWrite (i := 0) rfl)
+  have s7 := s6.step (.startFast (i := 1) rfl)
+  exact ⟨_, s7, 0, 1, ⟨1, .writing 0⟩, ⟨2, .fastRead⟩, by decide, rfl, rfl, by decide, Or.inl (by decide)⟩
+
+end registry
 
 /-! ## lazily published pointers -/
 section cas
